@@ -396,6 +396,7 @@ def library_items(thorough, r, work):
 # ------------------------------------------------------------------ feature libraries: the inputs option-guarded code interacts with
 FEATURES = collections.Counter()
 CPP_PATTERNS = ("none", "same", "first", "last", "differ", "first-two-same")
+_PAT_QUEUE = []
 SIGS = ["int i", "double d", "const std::string &s", "int i, int j", "long n, double x", "bool flag"]
 
 
@@ -430,7 +431,12 @@ def _doxygen(r, what):
 def _overload_set(r, base, tag, ret="void"):
     n = r.choice([2, 3, 3, 4])
     sigs = r.sample(SIGS, n)
-    pattern = r.choice(CPP_PATTERNS)
+    # round robin over a shuffled order: every pattern occurs once in any six consecutive sets of a run
+    if not _PAT_QUEUE:
+        q = list(CPP_PATTERNS)
+        r.shuffle(q)
+        _PAT_QUEUE.extend(q)
+    pattern = _PAT_QUEUE.pop()
     FEATURES["overload-set"] += 1
     FEATURES["overload-cpp_if:" + pattern] += 1
     out = []
@@ -463,7 +469,7 @@ def gen_feature_lib(r, name):
             d["splicer"] = {"c": ["// user body", "user_body_%d();" % i], "f": ["! user body", "call user_body_%d()" % i]}
             FEATURES["decl-splicer"] += 1
         decls.append(d)
-    for s in range(r.randrange(1, 3)):
+    for s in range(2):
         decls += _overload_set(r, "ovl%d" % s, "OVL%d" % s)
     if r.random() < 0.7:
         d = {"decl": "double genreal(double arg)", "fortran_generic": [
@@ -566,17 +572,19 @@ def add_user_splicers(doc, markers, r, work, tag):
             FEATURES["splicer_code:%s%s" % (lang, ":empty" if not body else "")] += 1
     if code:
         doc["splicer_code"] = code
+    aux = {}
     for lang, blocks in files.items():
         lead = "!" if lang == "f" else "//"
         fn = "%s_user_splicer_%s.%s" % (tag, lang, "f" if lang == "f" else "c")
+        aux[fn] = "".join("%s splicer begin %s\n%s%s splicer end %s\n\n" % (
+            lead, name, "".join(b + "\n" for b in body), lead, name) for name, body in blocks)
         with open(os.path.join(work, fn), "w") as f:
-            for name, body in blocks:
-                f.write("%s splicer begin %s\n%s%s splicer end %s\n\n" % (lead, name, "".join(b + "\n" for b in body), lead, name))
+            f.write(aux[fn])
         sp = doc.get("splicer") if isinstance(doc.get("splicer"), dict) else {}
         sp[lang] = list(sp.get(lang) or []) + [fn]
         doc["splicer"] = sp
         FEATURES["splicer-file"] += 1
-    return doc
+    return doc, aux
 
 
 def feature_items(thorough, r, work, corpus_items):
@@ -597,11 +605,11 @@ def feature_items(thorough, r, work, corpus_items):
         if not mk:
             continue
         FEATURES["splicer-blocks-offered"] += len(mk)
-        doc2 = add_user_splicers(doc, mk, r, work, tag)
+        doc2, aux = add_user_splicers(doc, mk, r, work, tag)
         y = shroudrun.write_yaml(work, tag + ".yaml", dump_yaml(doc2))
         label = it["label"] if it["label"].startswith("gen:") else it["label"] + "+splicers"
         items.append(dict(label=label, yaml=y, options=it["options"], language=it["language"],
-                          path=[work] + [p for p in it["path"] if p != work], text=dump_yaml(doc2)))
+                          path=[work] + [p for p in it["path"] if p != work], text=dump_yaml(doc2), aux=aux))
     return items
 
 
@@ -815,7 +823,7 @@ def judge_library(ctx, judge, item, spec, names, excs, file_texts, samples):
         bexc = excs[names.index(bname)]
         ctx.count(1)
         rp = {"library": label, "yaml": item["yaml"] if "text" not in item else None, "yaml_text": item.get("text"),
-              "options": item["options"], "language": item["language"], "variant": n,
+              "options": item["options"], "language": item["language"], "variant": n, "aux_files": item.get("aux"),
               "variant_options": v["options"], "write_version": v["write_version"], "decl_edits": v.get("edits"),
               "base_options": spec["variants"][names.index(bname)]["options"]}
         if (exc is None) != (bexc is None):
@@ -892,6 +900,7 @@ def run(ctx):
             item, spec, names = plan_corpus_case(case, work, i)
             jobs.append((item, spec, names))
         FEATURES.clear()
+        del _PAT_QUEUE[:]
         items = library_items(thorough, r, work)
         items += feature_items(thorough, r, work, [i for i in items if not i["label"].startswith("gen:")])
         for item in items:
@@ -956,6 +965,8 @@ def replay(path):
             doc = __import__("yaml").safe_load(text)
             edits = {tuple(int(x) for x in k.split(".")): v for k, v in (rp.get("decl_edits") or {}).items()}
             y = shroudrun.write_yaml(work, "replay.yaml", text)
+            for fn, t in (rp.get("aux_files") or {}).items():
+                shroudrun.write_yaml(work, fn, t)
             variants = [dict(options=rp["base_options"], write_version=False, yaml_text=None, outdir=os.path.join(work, "base")),
                         dict(options=rp["variant_options"], write_version=rp["write_version"],
                              yaml_text=dump_yaml(apply_decl_edits(doc, edits)) if edits else None,
@@ -963,7 +974,7 @@ def replay(path):
             for v in variants:
                 os.makedirs(v["outdir"])
             excs = run_worker(dict(yaml=y, language=rp.get("language"), options=rp["options"],
-                                   path=[shroudrun.REG, os.path.dirname(rp["yaml"] or y)], variants=variants))
+                                   path=[work, shroudrun.REG, os.path.dirname(rp["yaml"] or y)], variants=variants))
             a, b = (shroudrun.read_tree(v["outdir"], skip_ext=SKIP_EXT) for v in variants)
             print("  exceptions:", excs, " file sets equal:", set(a) == set(b))
             for fn in sorted(set(a) & set(b)):
